@@ -37,6 +37,12 @@ var plans = map[string]PropPlan{
 		QuickSecs: 90, ThoroughSecs: 1200,
 		Assumptions: schedAssume,
 	},
+	"C07": {
+		Quick:     []Plan{{Scenario: "conn.read", PB: 2, DB: 1}},
+		Thorough:  []Plan{{Scenario: "conn.read", PB: 3, DB: 2}},
+		QuickSecs: 100, ThoroughSecs: 1200,
+		Assumptions: append([]string{"time is virtual: a configured timer may fire at any scheduling point (one preemption while other threads can run; free when everything else is blocked); both the legacy buffered timer channel and the Go 1.23 semantics are explored"}, schedAssume...),
+	},
 	"C09": {
 		Quick:     []Plan{{Scenario: "conn.lifecycle", PB: 2, DB: 0}},
 		Thorough:  []Plan{{Scenario: "conn.lifecycle", PB: 3, DB: 0}},
